@@ -62,6 +62,9 @@ def gen_tree(rng, n_secs, depth_max):
                 continue
             nd["props"].append({"name": pname, "values": rng.choice([1, [1, 2], "x", ["a", "b"], 2.5]),
                                 "unit": rng.choice([None, None, "mV"])})
+            if rng.random() < 0.12:
+                # an n-tuple Property (its stored values are lists)
+                nd["props"][-1].update({"values": ["(1024;768)"], "dtype": "2-tuple"})
         return nd
 
     roots = []
@@ -183,6 +186,9 @@ def generate(run_seed):
                     # leniently (merge with strict=False), all the way down
                     lnode["props"].append({"name": nm, "values": own_v,
                                            "unit": rng.choice([None, None, "kOhm"])})
+                    tdt = [c.get("dtype") for c in tnode["props"] if c["name"] == nm][0]
+                    if tdt:
+                        lnode["props"][-1].update({"values": ["(1;2)"], "dtype": tdt})
             lnode["secs"].append({"name": "own", "type": "t1", "props": [], "secs": []})
         # refresh the node table: the linker's old children are gone
         nodes = paths_of(main)
@@ -223,7 +229,8 @@ def build(odml, roots, parent):
                            repository=nd.get("repository"), definition=nd.get("definition"),
                            reference=nd.get("reference"))
         for p in nd["props"]:
-            odml.Property(name=p["name"], values=p["values"], unit=p.get("unit"), parent=sec)
+            odml.Property(name=p["name"], values=p["values"], unit=p.get("unit"), parent=sec,
+                          dtype=p.get("dtype"))
         build(odml, nd["secs"], sec)
 
 
